@@ -104,8 +104,13 @@ def ref_fit(kind, vs, en):
 
 
 def same_as_reference(kind, vs, en, fitted):
+    """fitted = (E0, B0, B0', V0); B0' may be None when only public results (G, B, V) are available"""
     r = ref_fit(kind, vs, en)
-    return r is not None and np.all(np.isfinite(r)) and bool(np.all(np.abs(np.asarray(fitted, dtype="double") - r) <= 1e-6 * np.maximum(1.0, np.abs(r))))
+    if r is None or not np.all(np.isfinite(r)):
+        return False
+    idx = [i_ for i_ in range(4) if fitted[i_] is not None]
+    f_ = np.array([fitted[i_] for i_ in idx], dtype="double")
+    return bool(np.all(np.abs(f_ - r[idx]) <= 1e-6 * np.maximum(1.0, np.abs(r[idx]))))
 
 
 def rand_params(rng):
@@ -223,6 +228,41 @@ def run_qha(c, fph, pressure="case", el=None, tmax="case", arrays=None):
                           free_energy=a["free_energy"], cv=a["cv"], entropy=a["entropy"],
                           pressure=(c["pressure"] if pressure == "case" else pressure), eos=c["kind"],
                           t_max=(c["tmax"] if tmax == "case" else tmax), verbose=False)
+
+
+def hook(run, obj, name):
+    """optional access to a private attribute of the implementation: None (and a counted observation) if it does not exist"""
+    if obj is None or not hasattr(obj, name):
+        run.count("intermediate hook unavailable: " + name, section="oracle")
+        return None
+    return getattr(obj, name)
+
+
+def total_energies(c, fph, units):
+    nt = len(c["temps"])
+    el = np.array(c["el"], dtype="double") if c["shape"] == "TV" else np.tile(np.array(c["el"], dtype="double"), (nt, 1))
+    pv = 0.0 if c["pressure"] is None else np.array(c["vols"])[None, :] * c["pressure"] / units.EVAngstromToGPa
+    return np.array(fph) / units.EvTokJmol + el + pv
+
+
+def fitted_state(run, c, fph, qha, units):
+    """V, G, B (GPa) at ALL fitted temperatures (the public arrays hide the last one, which the finite differences read), the fitted
+    parameter rows and the fitted energies.  Taken from the private arrays of QHA when they exist; otherwise re-derived from public
+    results: the public part as returned, the hidden last point by the documented algorithm (reference leastsq) on the same energies."""
+    L = len(qha.volume_temperature)
+    Q = hook(run, qha, "_qha")
+    V, G, B, P, FE = (hook(run, Q, n_) for n_ in ("_equiv_volumes", "_equiv_energies", "_equiv_bulk_modulus", "_equiv_parameters", "_free_energies"))
+    if all(x is not None for x in (V, G, B, P, FE)) and len(V) == L + 1:
+        return dict(V=np.array(V, dtype="double"), G=np.array(G, dtype="double"), B=np.array(B, dtype="double"), P=np.array(P, dtype="double"),
+                    FE=np.array(FE, dtype="double"), exact=True)
+    tot = total_energies(c, fph, units)
+    V, G, B = list(qha.volume_temperature), list(qha.gibbs_temperature), list(qha.bulk_modulus_temperature)
+    r = ref_fit(c["kind"], c["vols"], tot[L]) if L < len(tot) else None
+    if r is None:
+        run.broke("correspondence", "model input unavailable: the fitted point after the last public temperature (QHA._equiv_volumes absent and the reference fit failed)", c.get("info"))
+        r = [G[-1], B[-1] / units.EVAngstromToGPa, 4.0, V[-1]]
+    V.append(r[3]); G.append(r[0]); B.append(r[1] * units.EVAngstromToGPa)
+    return dict(V=np.array(V, dtype="double"), G=np.array(G, dtype="double"), B=np.array(B, dtype="double"), P=None, FE=tot[:L + 1], exact=False)
 
 
 def check_untouched(run, site, before, arrs, info, when):
@@ -383,31 +423,33 @@ def main(run):
         arrs = caller_arrays(c, fph, as_view=c["as_view"])
         snap = snapshot(arrs)
         qha = run_qha(c, fph, arrays=arrs)
-        Q = qha._qha
         nt, nv = len(c["temps"]), len(c["vols"])
+        st = fitted_state(run, c, fph, qha, units)
+        c["state"] = st
         hasP = c["pressure"] is not None
         lines.append("fe %d %s %d %d %d %s %s %s" % (int(hasP), fb(c["pressure"] if hasP else 0.0), int(c["shape"] == "TV"), nt, nv,
                                                     fbs(c["vols"]), fbs(c["el"]), fbs(fph)))
-        meta.append(("fe", (c, np.array(Q._free_energies))))
-        num = len(Q._equiv_volumes)
+        meta.append(("fe", (c, np.array(qha.helmholtz_volume, dtype="double"))))
+        num = len(st["V"])
         cvat = []
-        for i in range(num):
-            vv = Q._equiv_volumes[i]
-            par = np.polyfit(c["vols"], c["cv"][i], 4)
-            cvat.append(float(np.dot(par, [vv ** 4, vv ** 3, vv ** 2, vv, 1])))
-        lines.append("fd %d %s %d %s %d %s %s %s %s" % (int(c["tmax"] is not None), fb(c["tmax"] if c["tmax"] is not None else 0.0), nt, fbs(c["temps"]),
-                                                       num, fbs(Q._equiv_volumes), fbs(Q._equiv_energies), fbs(Q._equiv_bulk_modulus), fbs(cvat)))
-        meta.append(("fd", (c, qha, num)))
-        # heat_capacity_P_polyfit: the quartic fits (np.polyfit) are inputs of the model as coefficient rows
         cvc = np.zeros((num, 5))
         scf = np.zeros((num, 5))
-        for j in range(1, num - 1):
-            cvc[j] = Q._volume_cv_parameters[j - 1]
-            scf[j] = Q._volume_entropy_parameters[j - 1]
-        lines.append("cpfit %d %s %s %s %s" % (num, fbs(np.array(Q._temperatures)[:num]), fbs(Q._equiv_volumes), fbs(cvc), fbs(scf)))
+        for i in range(num):
+            vv = st["V"][i]
+            par = np.polyfit(c["vols"], c["cv"][i], 4)  # the same public numpy call as the implementation's: an input of the model
+            cvat.append(float(np.dot(par, [vv ** 4, vv ** 3, vv ** 2, vv, 1])))
+            if 1 <= i < num - 1:
+                cvc[i] = par
+                scf[i] = np.polyfit(c["vols"], c["ent"][i], 4)
+        lines.append("fd %d %s %d %s %d %s %s %s %s" % (int(c["tmax"] is not None), fb(c["tmax"] if c["tmax"] is not None else 0.0), nt, fbs(c["temps"]),
+                                                       num, fbs(st["V"]), fbs(st["G"]), fbs(st["B"]), fbs(cvat)))
+        meta.append(("fd", (c, qha, num)))
+        # heat_capacity_P_polyfit: the quartic fits (np.polyfit) are inputs of the model as coefficient rows
+        lines.append("cpfit %d %s %s %s %s" % (num, fbs(np.array(c["temps"], dtype="double")[:num]), fbs(st["V"]), fbs(cvc), fbs(scf)))
         meta.append(("cpfit", (c, qha, num)))
-        lines.append("bulkgpa %d %s" % (num, fbs(Q._equiv_parameters[:, 1])))
-        meta.append(("bulkgpa", (c, np.array(Q._equiv_bulk_modulus))))
+        if st["P"] is not None:
+            lines.append("bulkgpa %d %s" % (num, fbs(st["P"][:, 1])))
+            meta.append(("bulkgpa", (c, np.array(st["B"]))))
         qcases.append((c, fph, qha))
         info = dict(eos=c["kind"], nt=nt, nv=nv, pressure=c["pressure"], el_shape=c["shape"], t_max=c["tmax"], t_max_kind=c["tmax_sel"], equilibrium_volume=c["outside"] or "inside", energy_offset_eV=c["offset"], temperature_step_K=c["dT"],
                     temperatures=c["temps"].tolist(), volumes=c["vols"].tolist())
@@ -452,7 +494,7 @@ def main(run):
         errV = float(np.abs(vt / Vk[:L] - 1).max())
         errG = float(np.abs(gt - Ek[:L]).max())
         errB = float(np.abs(bt / Bk[:L] - 1).max())
-        hv, hg, hb = np.array(qha._qha._equiv_volumes), np.array(qha._qha._equiv_energies), np.array(qha._qha._equiv_bulk_modulus)
+        hv, hg, hb = st["V"], st["G"], st["B"]
         if not (np.array_equal(hv[:L], vt) and np.array_equal(hg[:L], gt) and np.array_equal(hb[:L], bt)):
             run.broke("correspondence", "volume/gibbs/bulk_modulus_temperature are not the leading part of the fitted arrays the model's finite differences were fed with", info)
         run.cov["oracle"]["max recovery error V (rel)"] = max(run.cov["oracle"].get("max recovery error V (rel)", 0.0), errV)
@@ -467,10 +509,13 @@ def main(run):
         nfit_ = len(hv)
         err_hidden = max(float(np.abs(hv / Vk[:nfit_] - 1).max()), float(np.abs(hb / Bk[:nfit_] - 1).max()) * 1e-2)
         if errV > tolV or errG > tolG or errB > tolB or err_hidden > tolV:
-            fes = np.array(qha._qha._free_energies)
-            pars_impl = np.array(qha._qha._equiv_parameters)
+            fes = st["FE"]
+            if st["P"] is not None:
+                pars_impl = [tuple(r_) for r_ in st["P"]]
+            else:  # public results only: (G, B in eV/A^3, -, V)
+                pars_impl = [(hg[i_], hb[i_] / units.EVAngstromToGPa, None, hv[i_]) for i_ in range(len(hv))]
             bad_t = [i_ for i_ in range(len(pars_impl))
-                     if abs(pars_impl[i_][3] / Vk[i_] - 1) > 1e-9 or abs(pars_impl[i_][1] * units.EVAngstromToGPa / Bk[i_] - 1) > 1e-7 or abs(pars_impl[i_][0] - Ek[i_]) > 1e-9 * max(1.0, abs(Ek[i_]))]
+                     if abs(pars_impl[i_][3] / Vk[i_] - 1) > tolV or abs(pars_impl[i_][1] * units.EVAngstromToGPa / Bk[i_] - 1) > tolB or abs(pars_impl[i_][0] - Ek[i_]) > tolG]
             nonconv = len(bad_t) > 0 and all(same_as_reference(c["kind"], c["vols"], fes[i_], pars_impl[i_]) for i_ in bad_t)
         if nonconv:
             run.count("leastsq itself does not converge to the exact parameters (reference algorithm agrees with the implementation)", section="oracle")
@@ -534,7 +579,10 @@ def main(run):
         comp = run_qha(c0, fph0, pressure=1.0, tmax=None)
         if not np.all(np.array(comp.volume_temperature) < np.array(base.volume_temperature)):
             def _is_reference(q_):
-                fes_, par_ = np.array(q_._qha._free_energies), np.array(q_._qha._equiv_parameters)
+                Q_ = getattr(q_, "_qha", None)
+                if not (hasattr(Q_, "_free_energies") and hasattr(Q_, "_equiv_parameters")):
+                    return False
+                fes_, par_ = np.array(Q_._free_energies), np.array(Q_._equiv_parameters)
                 return all(same_as_reference(c["kind"], c["vols"], fes_[i_], par_[i_]) for i_ in range(len(par_)))
             if _is_reference(base) and _is_reference(comp):
                 # both analyses are what the documented algorithm gives on these data: a spurious stationary point of leastsq, not the +PV term
@@ -599,7 +647,7 @@ def main(run):
             c, impl = info
             model = np.array([bf(t) for t in line.split()]).reshape(len(c["temps"]), len(c["vols"]))
             ncmp += impl.size
-            if not close(impl, model[: impl.shape[0]], float(np.abs(model).max())):
+            if impl.shape[0] > model.shape[0] or not close(impl, model[: impl.shape[0]], float(np.abs(model).max())):
                 run.broke("correspondence", "free energies F_ph/EvTokJmol + E_el + PV: implementation differs from model by %.3g" % np.abs(impl - model[: impl.shape[0]]).max(), c["info"])
             run.count("free-energy", section="correspondence")
             continue
@@ -615,17 +663,21 @@ def main(run):
             toks = line.split()
             mlen = int(toks[0])
             arr = np.array([bf(t) for t in toks[1:]]).reshape(2, mlen)
-            Q = qha._qha
+            Q = getattr(qha, "_qha", None)
             if c["shape"] == "TV":
                 try:
                     qha.heat_capacity_P_polyfit
                     run.broke("correspondence", "heat_capacity_P_polyfit available for electronic energies of shape (T,V); model (cpPolyfitAvailable): NotImplementedError", c["info"])
                 except NotImplementedError:
                     pass
-                impl_cp = np.array(Q._cp_polyfit[:mlen], dtype="double")
+                hcp = hook(run, Q, "_cp_polyfit")
+                if hcp is None:
+                    continue
+                impl_cp = np.array(hcp[:mlen], dtype="double")
             else:
                 impl_cp = np.array(qha.heat_capacity_P_polyfit, dtype="double")
-            impl_ds = np.array(Q._dsdv[:mlen], dtype="double")
+            hds = hook(run, Q, "_dsdv")
+            impl_ds = np.array(hds[:mlen], dtype="double") if hds is not None else arr[1]
             ncmp += 2 * mlen
             if len(impl_cp) != mlen:
                 run.broke("correspondence", "heat_capacity_P_polyfit length %d, model %d" % (len(impl_cp), mlen), c["info"])
@@ -647,16 +699,17 @@ def main(run):
             if mnum != num or any(l != mlen for l in lens):
                 run.broke("correspondence", "lengths: implementation num_elems=%d, public lengths %r; model num_elems=%d, length %d" % (num, lens, mnum, mlen), c["info"])
                 continue
-            if not close(te, arr[0], float(np.abs(arr[0]).max())):
+            tol_fd = TOL if c["state"]["exact"] else 1e-6  # hidden last point re-derived by the reference fit when the private arrays are absent
+            if not close(te, arr[0], float(np.abs(arr[0]).max()), tol_fd):
                 run.broke("correspondence", "thermal expansion differs from model by %.3g" % np.abs(te - arr[0]).max(), c["info"])
             # np.polyfit on three points solves a Vandermonde system (conditioning ~ (T/dT)^2: allowance 1e-6), and the second difference of
             # g = G*EvTokJmol*1000 cancels |g| (whose zero is arbitrary): rounding allowance 8 eps |g| T / dT^2 on both sides
-            gmax_ = float(np.abs(np.array(qha._qha._equiv_energies)).max()) * units.EvTokJmol * 1000
+            gmax_ = float(np.abs(c["state"]["G"]).max()) * units.EvTokJmol * 1000
             tt_ = np.array(c["temps"][:num], dtype="double")
             round_ = 8 * 2.22e-16 * gmax_ * float(tt_.max()) / float(np.diff(tt_).min()) ** 2 if len(tt_) > 1 else 0.0
             if np.abs(cp - arr[1]).max(initial=0.0) > 1e-6 * float(np.abs(arr[1]).max(initial=0.0)) + round_:
                 run.broke("correspondence", "C_P (numerical) differs from model by %.3g (scale %.3g)" % (np.abs(cp - arr[1]).max(), np.abs(arr[1]).max()), c["info"])
-            if not close(gam, arr[2], float(np.abs(arr[2]).max())):
+            if not close(gam, arr[2], float(np.abs(arr[2]).max()), tol_fd):
                 run.broke("correspondence", "Grueneisen parameter differs from model by %.3g" % np.abs(gam - arr[2]).max(), c["info"])
             run.count("finite-differences", section="correspondence")
     run.cov["correspondence"]["compared"] = ncmp
